@@ -277,12 +277,25 @@ package server
 // CopyModel touches no blob and writes one manifest: the source is opened before the destination
 // is created (truncated), and a copy onto itself (same manifest path) returns before any effect,
 // so it never truncates its own source.
+//@ extern func types/model.Unqualified
+//@   modifies nothing
+//@   ensures result != nil
 //@ func CopyModel
 //@   ghost-at entry : ghost_srcopen := 0
 //@   ghost-at after call os.Open #1 : ghost_srcopen := ite(result.1 == nil, 1, 0)
 //@   assert-at call os.MkdirAll #1 : fpjoin4(src.Host, src.Namespace, src.Model, src.Tag) != fpjoin4(dst.Host, dst.Namespace, dst.Model, dst.Tag)
 //@   assert-at call os.Create #1 : ghost_srcopen == 1 && arg0 == dstpath
 //@   assert-at call os.Create #1 : fpjoin4(src.Host, src.Namespace, src.Model, src.Tag) != fpjoin4(dst.Host, dst.Namespace, dst.Model, dst.Tag)
+// The copy is a file of its own: success means the source's bytes were copied into the file
+// created for the destination (or source and destination are the same path). Manifests are
+// rewritten in place by pull and create, so two names must never share one file (a link): a later
+// operation on one name would change the other, uninvolved model (added after C12-seed3).
+//@   ghost-at entry : ghost_created := 0
+//@   ghost-at entry : ghost_copied := 0
+//@   ghost-at after call os.Create #1 : ghost_created := ite(result.1 == nil, 1, 0)
+//@   ghost-at after call io.Copy #1 : ghost_copied := ite(result.1 == nil, 1, 0)
+//@   assert-at call io.Copy #1 : ghost_created == 1 && ghost_srcopen == 1
+//@   assert-at return : result == nil ==> (ghost_copied == 1 || fpjoin4(src.Host, src.Namespace, src.Model, src.Tag) == fpjoin4(dst.Host, dst.Namespace, dst.Model, dst.Tag))
 
 // Manifests(false) - the corrupt-manifest check of the startup sequence - skips nothing silently:
 // the three places that skip a directory entry (bad path, invalid name, unreadable manifest) are
